@@ -29,6 +29,9 @@ RULE = (
     "an UPDATE with a class ANY/NONE RR, or extended rcode >= 16, or size > 0x4000; distinct by SHA-1"
     " Also: names of exactly 255/254 octets once the origin is appended; UPDATE zones of class IN/CH/HS with the parsed record sets required to carry the zone's class."
 )
+RULE += (
+    " Rounds 8-9 added: twin RRSIG/SIG RRsets at one owner covering different types; staircases of 11-24 owners (pointer chains of >= 11 hops)."
+)
 ASSUMPTIONS = [
     "TTLs are generated <= 2^31-1 (the reader maps larger values to 0 by design)",
     "compression is case-insensitive (RFC 4343 4.1): 'exactly that name suffix' is read as DNS name "
